@@ -83,7 +83,7 @@ pub fn run_c19(out: &mut Out, _rng: &mut Rng, tier: Tier) -> String {
     }
     inputs.extend([vec![3, 2, 4], vec![2, 3, 1], vec![1, 3], vec![3, 1], vec![2, 2, 1, 3], vec![0, 2], vec![2, 0], vec![0, 0, 1]]);
     // many rows / long rows (beyond 1024 and 4096 elements), uniform and with one deviating row late in the input
-    inputs.extend([vec![65; 64], vec![1400; 3], vec![1; 4099], { let mut v = vec![65; 64]; v[63] = 64; v }, { let mut v = vec![65; 64]; v[40] = 66; v }, { let mut v = vec![1; 1100]; v[1099] = 2; v }]);
+    inputs.extend([vec![300; 257], vec![65; 64], vec![1400; 3], vec![1; 4099], { let mut v = vec![65; 64]; v[63] = 64; v }, { let mut v = vec![65; 64]; v[40] = 66; v }, { let mut v = vec![1; 1100]; v[1099] = 2; v }]);
     for lens in &inputs {
         out.case(&format!("rows lens={:?}", lens));
         let mut w = World::<Tok>::new(out);
